@@ -307,6 +307,34 @@ fn scale_threshold_f64(d: &mut Draw) -> Outcome {
                 let direct = iv.unwrap();
                 let want = i.transform_vector(v);
                 ensure!((direct - want).magnitude() <= 64.0 * e * want.magnitude(), "inverse_transform_vector", "{}: inverse_transform_vector vs inverse_transform().transform_vector", $who);
+                // inverse_transform_vector is linear in its argument: a power of two times v gives that power of two times
+                // the result - up into the top binade (|scale| >= 16 leaves v/scale room for any rotation) and down to
+                // the last few subnormal units (|scale| < 1 makes v/scale the larger of the two)
+                let m = v.x.abs().max(v.y.abs()).max(v.z.abs());
+                if m > 0.0 && scale.abs() > 1e-6 && cls != "huge" {
+                    // (applied in two steps: 2^e itself need not be a finite number)
+                    let sc = |x: Vector3<f64>, e: i32| x * (2.0f64).powi(e / 2) * (2.0f64).powi(e - e / 2);
+                    let sc1 = |x: f64, e: i32| x * (2.0f64).powi(e / 2) * (2.0f64).powi(e - e / 2);
+                    if scale.abs() >= 16.0 {
+                        let e = 1023 - m.log2().floor() as i32;
+                        let e = if sc1(m, e).is_finite() { e } else { e - 1 };
+                        let vs = sc(v, e);
+                        let got = t.inverse_transform_vector(vs).unwrap();
+                        let want = sc(direct, e);
+                        let err = (got.x - want.x).abs().max((got.y - want.y).abs()).max((got.z - want.z).abs());
+                        ensure!(err <= 64.0 * f64::EPSILON * (sc1(m, e) / scale.abs()), "inverse_transform_vector-top-binade", "{}: inverse_transform_vector of a vector in the top binade is {:?}, 2^{} times that of the vector scaled down is {:?} (scale {:e})", $who, got, e, want, scale);
+                    }
+                    if scale.abs() < 1.0 {
+                        let e = -1071 - m.log2().floor() as i32 + d.int(0, 3) as i32;
+                        let vs = sc(v, e);
+                        let up = sc(vs, 600);
+                        let got = t.inverse_transform_vector(vs).unwrap();
+                        let want = sc(t.inverse_transform_vector(up).unwrap(), -600);
+                        let unit = (2.0f64).powi(-1074);
+                        let err = (got.x - want.x).abs().max((got.y - want.y).abs()).max((got.z - want.z).abs());
+                        ensure!(err <= 64.0 * unit, "inverse_transform_vector-subnormal", "{}: inverse_transform_vector of the subnormal vector {:?} is {:?}; computed 2^600 times larger and scaled back it is {:?} (off by {} units of 2^-1074; scale {:e})", $who, vs, got, want, err / unit, scale);
+                    }
+                }
                 // points: cancellation of disp/scale
                 let back = i.transform_point(t.transform_point(p));
                 let tolp = 256.0 * e * (p.to_vec().magnitude() + disp.magnitude() / scale.abs() + 1e-300);
@@ -493,11 +521,11 @@ pub fn property() -> Property {
     add!("matrix4-Q", "Q", m4_exact::<Q>, 3000, 200_000, 192, &[("affine-generic", 100), ("projective", 100), ("affine-times-scalar", 80), ("singular", 50)], "linear parts with all entries non-zero");
     add!("matrix4-Fp", "Fp", m4_exact::<Fp>, 3000, 200_000, 192, &[("affine-generic", 100), ("projective", 100), ("affine-times-scalar", 80), ("singular", 50)], "linear parts with all entries non-zero");
     add!("matrix3-Q", "Q", m3_exact::<Q>, 3000, 200_000, 192, &[("generic", 100), ("singular", 50)], "linear parts with all entries non-zero");
-    add!("matrix3-Fp", "Fp", m3_exact::<Fp>, 3000, 200_000, 192, &[("generic", 100), ("singular", 50)], "linear parts with all entries non-zero");
-    add!("matrix_compose-f64", "f64", matrix_compose_f64, 6000, 400_000, 96, &[("right-factor-nearly-identity", 200), ("right-factor-identity", 100), ("right-factor-generic", 200)], "every generated pair of affine matrices");
-    add!("scale_threshold-f64", "f64", scale_threshold_f64, 10000, 500_000, 64,
+    add!("matrix3-Fp", "Fp", m3_exact::<Fp>, 3000, 200_000, 256, &[("generic", 100), ("singular", 50)], "linear parts with all entries non-zero");
+    add!("matrix_compose-f64", "f64", matrix_compose_f64, 6000, 400_000, 128, &[("right-factor-nearly-identity", 200), ("right-factor-identity", 100), ("right-factor-generic", 200)], "every generated pair of affine matrices");
+    add!("scale_threshold-f64", "f64", scale_threshold_f64, 10000, 500_000, 96,
         &[("zero", 100), ("negligible", 100), ("just-above", 50), ("small", 50), ("huge", 50), ("ordinary", 150)], "every generated transform; scale classes zero / negligible / just above 1e-6 / small / ordinary required");
-    add!("matrix_small_determinant-f64", "f64", matrix_small_det_f64, 8000, 400_000, 64,
+    add!("matrix_small_determinant-f64", "f64", matrix_small_det_f64, 8000, 400_000, 96,
         &[("subnormal-determinant", 80), ("minute", 100), ("small", 100), ("just-above-1e-6", 100), ("ordinary", 150)], "every generated transform; determinant classes subnormal / minute / small / just above the Decomposed threshold / ordinary required");
     Property {
         id: "C08",
